@@ -282,6 +282,39 @@ TARGET_LISTS = [
 TARGET_SCALES = {'TBalance': A_SC, 'TUnitsBal': A_SC, f'(TCostBal {10 ** B_SC})': A_SC + B_SC, 'TFirstBal': A_SC}
 
 
+# (fix-D) `balance` as a LATER operand of a function call whose earlier operand is NULL on some selected postings (cash legs have no
+# cost_currency / cost_number / cost_date / cost_label) and NO plain balance target next to it: whether or not the call yields
+# NULL for a row, that row's position belongs to the balance every later row sees.  {a} = the nullable column, {b} = balance.
+# Oracle: the prefix sums folded in plain Python from the query's own `position` column, stored next to the nullable column
+# in a user table #fold(a, inv); the same target expressions evaluated over that table (no running state involved).
+NULLARG_FAMILIES = [
+    ('cost_currency', 'str', ['only({a}, {b})']),
+    ('cost_currency', 'str', ['number(only({a}, {b}))', 'account']),
+    ('cost_number', 'decimal', ["safediv({a}, number(only('USD', {b})))"]),
+    ('cost_currency', 'str', ['grep({a}, str(units({b})))']),
+    ('cost_date', 'date', ['date_add({a}, length(str(units({b}))))']),
+    ('cost_label', 'str', ["subst('l', {a}, str(cost({b})))"]),
+    ('cost_currency', 'str', ['filter_currency({b}, {a})']),
+    ('cost_currency', 'str', ['only({a}, {b})', "only('USD', {b})"]),
+    ('cost_currency', 'str', ["only('USD', {b})", 'only({a}, {b})', 'only({a}, units({b}))']),
+    ('cost_number', 'decimal', ["possign({a}, str(units({b})))", 'only(cost_currency, {b})']),
+    ('cost_currency', 'str', ['only({a}, filter_currency({b}, {a}))']),
+    ('cost_label', 'str', ["only(cost_currency, convert({b}, {a}))"]),
+]
+
+
+def canon_cell(v):
+    from beancount.core import inventory as binv
+    from beancount.core import amount as bamount
+    if isinstance(v, binv.Inventory):
+        return ['inv', canon_inv(v)]
+    if isinstance(v, bamount.Amount):
+        return ['amount', None if v.number is None else frac_s(v.number), v.currency]
+    if isinstance(v, D):
+        return ['decimal', frac_s(v)]
+    return repr(v)
+
+
 def load_postings(path):
     from beancount import loader
     from beancount.core import data
@@ -530,6 +563,30 @@ def prepare(case):
                 extra['rawidx'] = [i for i, t in enumerate(t for t in tl if t != 'TOther') if t == 'TBalance']
             add(kind, q, icells, expr, ['rows', scales], sel=sel[0], refs=sum(t != 'TOther' for t in tl),
                 wshape=wshape, **extra)
+        elif kind == 'nullarg':
+            import copy as _copy
+            from beancount.core import inventory as binv
+            acol, atype, tmpls = NULLARG_FAMILIES[item[2] % len(NULLARG_FAMILIES)]
+            q = sql(f'position, {acol}, ' + ', '.join(t.format(a=acol, b='balance') for t in tmpls), sel)
+            rb = execute(q)
+            running, trows = binv.Inventory(), []
+            for row in rb:
+                running.add_position(row[0])
+                trows.append((row[1], row[0].cost.currency if row[0].cost else None, _copy.copy(running)))
+            pyt = {'str': str, 'decimal': D, 'date': datetime.date}[atype]
+            # #fold: the nullable operand, cost_currency (named by some families next to {a}) and the folded prefix sum
+            table = impl.make_table('fold', [('a', pyt), ('cost_currency', str), ('inv', binv.Inventory)], trows)
+            for cn in conns:
+                cn.tables['fold'] = table
+            wtargets = [t.format(a='a', b='inv') for t in tmpls if t != 'account']
+            qw = 'SELECT ' + ', '.join(wtargets) + ' FROM #fold'
+            rw = execute(qw)
+            keep = [i for i, t in enumerate(tmpls) if t != 'account']
+            got = [[canon_cell(row[2 + i]) for i in keep] for row in rb]
+            wantc = [[canon_cell(v) for v in row] for row in rw]
+            nulls = [row[1] is None for row in rb]
+            add(kind, q, {'got': got, 'want': wantc, 'fold_sql': qw}, 'OL []', ['nullarg'], sel=sel[0], nsel=len(rb),
+                family=' ; '.join(tmpls), null_rows=sum(nulls), nonnull_rows_after_a_null=sum(1 for i, n in enumerate(nulls) if not n and any(nulls[:i])))
         elif kind == 'lastbal':
             # aggregate path: last(balance) per group, every selected row evaluates balance
             lim = [None, None, 1, 2][item[3] % 4]
@@ -771,9 +828,10 @@ def prepare_safe(case):
 def gen_plan(rng, tier):
     plan = []
     nsel = 12
-    k = 11 if tier == 'quick' else 20
+    k = 12 if tier == 'quick' else 22      # (fix-D) one / two more draws for the two 'nullarg' entries: the other kinds keep their counts
     kinds = ['sum', 'units', 'cost', 'value', 'convert', 'convert', 'group', 'balance', 'balance', 'balance', 'balance',
-             'lastbal', 'firstbal', 'andempty', 'sumprice', 'journal', 'balances', 'subagg', 'subagg', 'balagg', 'usertable', 'grouplimit', 'grouplimit']
+             'lastbal', 'firstbal', 'andempty', 'sumprice', 'journal', 'balances', 'subagg', 'subagg', 'balagg', 'usertable', 'grouplimit', 'grouplimit',
+             'nullarg', 'nullarg']
     for _ in range(k):
         kind = rng.choice(kinds)
         s = rng.randrange(nsel) if rng.random() < 0.75 else 0
@@ -847,6 +905,14 @@ def compare(check, mx, cur, lab):
         for a, b in im['amounts']:
             if a != b:
                 probs.append((check['kind'], f'a position held without cost: convert(position, ...) = {a} but convert(units(position), ...) = {b}'))
+                break
+    elif dec[0] == 'nullarg':
+        if len(im['got']) != len(im['want']):
+            probs.append(('nullarg', f'{len(im["got"])} rows, the fold table has {len(im["want"])}'))
+        for i, (g, w) in enumerate(zip(im['got'], im['want'])):
+            if g != w:
+                probs.append(('nullarg', f'selected row {i}: [{check["family"]}] = {g}, but over the prefix sum of the selected positions up to it '
+                                         f'({im["fold_sql"]}) = {w}'))
                 break
     elif dec[0] == 'invrows':
         m = [[decode_inv(x, sc, cur, lab) for x, sc in zip(r, dec[1])] for r in mx]
@@ -1152,6 +1218,12 @@ def run(tier, rng):
                         hist['group_limit_vs_groups'].get(chk['limit_vs_groups'], 0) + 1
                 if chk.get('nsel') == 0:
                     hist['empty_selections'] += 1
+                if chk['kind'] == 'nullarg':
+                    hn = hist.setdefault('nullarg', {'families': {}, 'rows': 0, 'rows_with_null_first_operand': 0, 'nonnull_rows_after_a_null': 0})
+                    hn['families'][chk['family']] = hn['families'].get(chk['family'], 0) + 1
+                    hn['rows'] += chk['nsel']
+                    hn['rows_with_null_first_operand'] += chk['null_rows']
+                    hn['nonnull_rows_after_a_null'] += chk['nonnull_rows_after_a_null']
                 if info['postings'] >= 2:
                     nontrivial.add(chk['sql'] + '@' + c['path'])
                 if len(samples) < 8 and chk['kind'] not in {s.split(':')[0] for s in samples}:
@@ -1218,7 +1290,10 @@ def run(tier, rng):
                 'Inventory column (one row per posting or per transaction) queried twice, grouped and ungrouped, with the '
                 'input inventories checked unchanged afterwards; GROUP BY account/currency/narration/cost_currency ... LIMIT n without '
                 'ORDER BY (n = 0, 1, 2, 3, groups-1, groups, groups+1; also on last(balance)): the first n groups in first-appearance '
-                'order, each with its full sum; 1 in 4 ledgers alternate two connections; '
+                'order, each with its full sum; balance as a later operand of a function call (only, safediv, grep, date_add, subst, possign, '
+                'filter_currency, convert; nested) whose earlier operand is a cost column that is NULL on cash legs, with and without another '
+                'balance reference next to it, against the same calls over a user table holding the Python-folded prefix sums of the '
+                'query\'s own position column; 1 in 4 ledgers alternate two connections; '
                 'plus random add_position/add_inventory sequences on beancount Inventory directly. '
                 'non-trivial = distinct (query, ledger) with >= 2 postings',
         'samples': samples,
